@@ -346,6 +346,13 @@ def text(ctx, rule):
                     if clean_split(val):
                         stack.extend((p, l) for l, p in n.pred)
                         continue
+                    if whole and isinstance(val, ast.Name):
+                        # `head, sep, tail = url.partition(CONST)` ... `url = tail`: a piece of a clean split under another name
+                        src = [a.value for a in ast.walk(fn) if isinstance(a, ast.Assign) and isinstance(a.targets[0], (ast.Tuple, ast.List))
+                               and any(isinstance(e, ast.Name) and e.id == val.id for e in a.targets[0].elts)]
+                        if src and all(clean_split(v_) and isinstance(v_.func.value, ast.Name) and v_.func.value.id == var for v_ in src):
+                            stack.extend((p, l) for l, p in n.pred)
+                            continue
                     bad = n
                     break
                 if n is g.entry:
